@@ -56,7 +56,7 @@ def cases(tier, seed):
                 out.append({"spec": spec, "cfg": c, "sc": sc})
     # integer-typed bound arrays under every scaling
     for obj in ("qdiag", "cubic"):
-        for rows in ([], [("affine", "ranged")], [("sphere", "upper")]):
+        for rows in ([], [("affine", "ranged")], [("sphere", "upper")], [("affine", "introw")], [("sphere", "introw"), ("affine", "inteq")]):
             for x0i in (1, 2):
                 sp = S.mk(2, obj, rows, ["intbox", "intbox"], x0_idx=x0i)
                 for sc in G.scalings_of(sp, (0, 1, 2, 3, 4, 5)):
